@@ -248,11 +248,11 @@ func runC17(c *Ctx) {
 		c.Rep.Record("guid_cmp", cmpClass, true, desc, []string{ga, guidArg(h), b01(eq)}, v, info, nil)
 	}
 	nS := c.N(800, 60000)
-	maxLen := c.N(40, 300)
+	maxLen := c.Bound(40, 300)
 	for i := 0; i < nS; i++ {
 		rs, class := genString(rng, maxLen)
 		if i%97 == 0 {
-			rs, _ = genString(rng, c.N(3000, 20000))
+			rs, _ = genString(rng, c.Bound(3000, 20000))
 			class = "long"
 		}
 		nt := len(rs) > 0
